@@ -292,6 +292,17 @@ static bool traverse_c10(void)
 
 /* ---- C05: write the tree through the real writer calls; the output must be the canonical
  * (reference) encoding, be accepted by verify, and decode back to the values written */
+/* in-place mode: string / bytes payloads are first staged INSIDE the writer's destination, one byte beyond where they will end up,
+ * and written from there (a caller that builds its message in place): source and destination of the copy overlap */
+static bool ALIAS_MODE;
+static const uint8_t *staged(binson_writer *w, const uint8_t *pay, size_t len)
+{
+    size_t hdr = 1 + (len <= 127 ? 1 : len <= 32767 ? 2 : 4);
+    uint8_t *st = L.buf + binson_writer_get_counter(w) + hdr + 1;
+    if (!ALIAS_MODE || len == 0 || w->error_flags != BINSON_ERROR_NONE || (size_t) (st - L.buf) + len > D->len) return pay;
+    memmove(st, pay, len);
+    return st;
+}
 static bool write_tree(binson_writer *w, int id)
 {
     const vf_node *c = &D->n[id];
@@ -319,13 +330,13 @@ static bool write_tree(binson_writer *w, int id)
                 binson_write_string(w, z);
                 free(z);
             } else if (x->pay_len == 0 && !(ch & 1)) binson_write_string_with_len(w, NULL, 0);
-            else binson_write_string_with_len(w, (const char *) s, (size_t) x->pay_len);
+            else binson_write_string_with_len(w, (const char *) staged(w, s, (size_t) x->pay_len), (size_t) x->pay_len);
             break;
         }
         case VK_BYT:
             /* an empty value may come with a NULL pointer (std::vector<uint8_t>().data()) */
             if (x->pay_len == 0 && (ch & 1)) binson_write_bytes(w, NULL, 0);
-            else binson_write_bytes(w, D->bytes + x->pay_off, (size_t) x->pay_len);
+            else binson_write_bytes(w, staged(w, D->bytes + x->pay_off, (size_t) x->pay_len), (size_t) x->pay_len);
             break;
         case VK_OBJ: binson_write_object_begin(w); if (!write_tree(w, ch)) return false; binson_write_object_end(w); break;
         case VK_ARR: binson_write_array_begin(w); if (!write_tree(w, ch)) return false; binson_write_array_end(w); break;
@@ -335,7 +346,19 @@ static bool write_tree(binson_writer *w, int id)
     return true;
 }
 static int needed_depth(const vf_doc *d);
+static bool traverse_c05_mode(void);
 static bool traverse_c05(void)
+{
+    ALIAS_MODE = false;
+    if (!traverse_c05_mode()) return false;
+    if (LIGHT) return true;
+    ALIAS_MODE = true;
+    bool ok = traverse_c05_mode();
+    ALIAS_MODE = false;
+    if (!ok) { char t[300]; snprintf(t, sizeof t, "with payloads staged inside the destination: %s", why); snprintf(why, sizeof why, "%s", t); }
+    return ok;
+}
+static bool traverse_c05_mode(void)
 {
     bool isobj = D->root_kind == VK_OBJ;
     uint8_t *out = L.buf;           /* the live buffer (exact size, ASan-guarded) is the writer's destination */
@@ -668,12 +691,12 @@ static void worker(int w, int W, uint64_t start)
         gs.cb = on_doc;
         vf_sibling_run(&gs, 2);
     }
-    static const int cls[] = { LC_INT8, LC_NEG16, LC_INT32, LC_NEG64, LC_INTMIN, LC_STR, LC_STR0, LC_STRNUL, LC_STR128, LC_BYT, LC_BYT0, LC_DBL, LC_DBLBIG, LC_TRUE, LC_FALSE, LC_OBJ, LC_ARR };
+    static const int cls[] = { LC_INT8, LC_NEG16, LC_INT32, LC_NEG64, LC_INTMIN, LC_STR, LC_STR0, LC_STRNUL, LC_STRHI, LC_STR128, LC_BYT, LC_BYT0, LC_DBL, LC_DBLBIG, LC_TRUE, LC_FALSE, LC_OBJ, LC_ARR };
     static const vf_name names[] = { { (const uint8_t *) "", 0 }, { (const uint8_t *) "a", 1 }, { (const uint8_t *) "a\0b", 3 }, { (const uint8_t *) "a\0c", 3 }, { (const uint8_t *) "temp_max", 8 }, { (const uint8_t *) "temp_min", 8 }, { (const uint8_t *) "\x80\xff", 2 } };
     static vf_gen g;
     for (int root = VK_OBJ; root <= VK_ARR; root++) {
         memset(&g, 0, sizeof g);
-        g.root_kind = root; g.max_tokens = N_DOC; g.classes = cls; g.nclasses = 17; g.names = names; g.nnames = 7; g.max_obj_depth = 0;
+        g.root_kind = root; g.max_tokens = N_DOC; g.classes = cls; g.nclasses = 18; g.names = names; g.nnames = 7; g.max_obj_depth = 0;
         g.cb = on_doc;
         vf_gen_run(&g);
     }
